@@ -256,6 +256,11 @@ def ti_ops(text):
             for k in sorted(doc[sec]):
                 yield "%s[%s]" % (sec, k), ["set", sec, k, "/abs/images/%s" % k.replace(" ", "_")]
     yield "images-unreferenced", ["addsec", "images-zzz", [["kernel", "images/vmlinuz"]]]
+    listed = [p for p in doc["tree"]["platforms"].split(",") if p]
+    for p in listed:
+        for sub in (p[:-1], p[1:], p[:3]):
+            if sub and sub not in listed and "images-" + sub not in doc:
+                yield "images-unreferenced", ["addsec", "images-" + sub, [["kernel", "images/vmlinuz"]]]
     if "stage2" in doc:
         for k in ("instimage", "mainimage"):
             yield "stage2." + k, ["set", "stage2", k, "/abs/stage2.img"]
